@@ -41,6 +41,24 @@ def members(obj):
     _children_cache[key] = (obj, ids)
     return ids
 
+def _name_of(obj):
+    "the member name a Renamed node contributes to error paths"
+    if type(obj).__name__ == "Renamed":
+        n = obj.__dict__.get("name")
+        return n if isinstance(n, str) else "?" if n is not None else ""
+    return ""
+
+def path_list(exc):
+    """ConstructError.path as a list: ["(parsing)", "a", "b"]; ["<none>"] when a ConstructError carries no path;
+    [] for exceptions that are not ConstructErrors"""
+    import construct
+    if not isinstance(exc, construct.ConstructError):
+        return []
+    p = getattr(exc, "path", None)
+    if p is None:
+        return ["<none>"]
+    return [x for x in str(p).split(" -> ")]
+
 def pos_of(stream):
     if stream is None:
         return 0
@@ -99,7 +117,8 @@ class Recorder:
             stack.append(obj)
             stream = args[0] if op == "parse" else args[1] if op == "build" else None
             ev = {"e": "in", "k": type(obj).__name__, "op": op, "p": pos_of(stream), "ok": True,
-                  "v": V.enc(args[0]) if op == "build" and self.values else {"t": "none"}, "err": ""}
+                  "v": V.enc(args[0]) if op == "build" and self.values else {"t": "none"}, "err": "",
+                  "nm": _name_of(obj), "path": []}
             st["events"].append(ev)
             if self.gate is not None:
                 self.gate(ev)
@@ -112,10 +131,10 @@ class Recorder:
             stream = args[0] if op == "parse" else args[1] if op == "build" else None
             if exc is None:
                 ev = {"e": "out", "k": type(obj).__name__, "op": op, "p": pos_of(stream), "ok": True,
-                      "v": V.enc(ret) if self.values else {"t": "none"}, "err": ""}
+                      "v": V.enc(ret) if self.values else {"t": "none"}, "err": "", "nm": _name_of(obj), "path": []}
             else:
                 ev = {"e": "out", "k": type(obj).__name__, "op": op, "p": pos_of(stream), "ok": False,
-                      "v": {"t": "none"}, "err": type(exc).__name__}
+                      "v": {"t": "none"}, "err": type(exc).__name__, "nm": _name_of(obj), "path": path_list(exc)}
             st["events"].append(ev)
             if self.gate is not None:
                 self.gate(ev)
@@ -176,12 +195,17 @@ class FaultyIO(io.RawIOBase):
     def writable(self): return True
     def getvalue(self): return self.buf.getvalue()
 
+LAST_PATH = [[]]
 def _outcome(fn):
+    LAST_PATH[0] = []
     try:
         return True, fn(), ""
     except BaseException as e:
-        if isinstance(e, (KeyboardInterrupt, SystemExit, MemoryError)):
+        LAST_PATH[0] = path_list(e) if not isinstance(e, Watchdog) else []
+        if isinstance(e, (KeyboardInterrupt, SystemExit)):
             raise
+        if isinstance(e, MemoryError):
+            return False, None, "Watchdog"
         if isinstance(e, Watchdog):
             return False, None, "Watchdog"
         return False, None, type(e).__name__
@@ -197,8 +221,8 @@ def run_parse(rec, con, data, start=0, kw=None, fault=None):
     events = rec.stop()
     if err == "Watchdog":
         events = events[:40]
-    return {"op": "parse", "events": events,
-            "res": {"ok": ok, "v": V.enc(val) if ok else {"t": "none"}, "err": err, "p": pos_of(stream)}}
+    return {"op": "parse", "events": events, "ops": getattr(stream, "ops", 0),
+            "res": {"ok": ok, "v": V.enc(val) if ok else {"t": "none"}, "err": err, "p": pos_of(stream), "path": LAST_PATH[0]}}
 
 def run_build(rec, con, obj, pre=b"", kw=None, fault=None):
     "build_stream into a root stream that already holds `pre`; returns the recorded call"
@@ -213,8 +237,8 @@ def run_build(rec, con, obj, pre=b"", kw=None, fault=None):
     if err == "Watchdog":
         events = events[:40]
     out = stream.getvalue()
-    return {"op": "build", "events": events,
-            "res": {"ok": ok, "v": V.VBytes(out[len(pre):]) if ok else {"t": "none"}, "err": err, "p": pos_of(stream)}}
+    return {"op": "build", "events": events, "ops": getattr(stream, "ops", 0),
+            "res": {"ok": ok, "v": V.VBytes(out[len(pre):]) if ok else {"t": "none"}, "err": err, "p": pos_of(stream), "path": LAST_PATH[0]}}
 
 def run_sizeof(rec, con, kw=None):
     kw = kw or {}
@@ -222,4 +246,4 @@ def run_sizeof(rec, con, kw=None):
     ok, val, err = _outcome(lambda: con.sizeof(**kw))
     events = rec.stop()
     return {"op": "sizeof", "events": events,
-            "res": {"ok": ok, "v": V.enc(val) if ok else {"t": "none"}, "err": err, "p": 0}}
+            "res": {"ok": ok, "v": V.enc(val) if ok else {"t": "none"}, "err": err, "p": 0, "path": LAST_PATH[0]}}
